@@ -203,6 +203,21 @@ def build_case(rng, tier):
         if lay['delimiter'] != 'regex' or all(' ' not in (r.get('amount_text') or '') for r in rows1 + rows2):
             case['pair'] = {'settings_a': st.source_settings(lay, name, 'data/a.csv'), 'text_a': st.render(lay, rows1),
                             'settings_b': st.source_settings(lay2, 'Second', 'data/b.csv'), 'text_b': st.render(lay2, rows2)}
+    if len(rows) >= 3:
+        # two adjacent rows damaged in the same way (a block of "Pending" rows): each is skipped on its own
+        k = rng.randrange(1, len(rows) - 1)
+        bad_cell = bad_date(rng, lay, st.date_cell(lay, rows[k]))
+        rows2 = [dict(r) for r in rows]
+        ok = True
+        for j in (k, k + 1):
+            cells = st.row_cells(lay, rows[j])
+            cells[lay['cols'].index('date')] = bad_cell
+            if lay['delimiter'] == 'regex' and any(ch.strip() == '' for ch in cells):
+                ok = False
+            rows2[j]['raw'] = st.join_cells(lay, cells)
+        if ok:
+            case['faults'].append({'class': 'bad-date-run', 'row': rows[k]['id'], 'row2': rows[k + 1]['id'], 'position': 'middle',
+                                   'text': st.render(lay, rows2)})
     text = case['text']
     lines = st.render_lines(lay, rows)
     # record end offsets (in characters) so that "rows that end before the cut" is well defined
@@ -293,9 +308,10 @@ def execute(case, scratch):
                                        'schedule': sched(f)})
                 continue
             rid = f['row']
-            others_want = [g for g in got if rid_of(g['description']) != rid]
-            others_have = [g for g in res['txns'] if rid_of(g['description']) != rid]
-            mine = [g for g in res['txns'] if rid_of(g['description']) == rid]
+            dmg = {rid, f.get('row2', rid)}
+            others_want = [g for g in got if rid_of(g['description']) not in dmg]
+            others_have = [g for g in res['txns'] if rid_of(g['description']) not in dmg]
+            mine = [g for g in res['txns'] if rid_of(g['description']) in dmg]
             # a damaged row may no longer carry its id in the description (empty description): anything extra is also "mine"
             if len(others_have) != len(others_want) or not all(same_txn(a, b) for a, b in zip(others_want, others_have)):
                 violations.append({'invariant': 'ISO', 'signature': {'class': f['class'], 'what': 'other-rows-differ', 'delimiter': delim},
